@@ -120,6 +120,7 @@ def execute(case, tmpdir, seed=0):
             if a == 'R': raise scared.ResynchroError('rejected %d' % j)
             if a == 'X': raise ZeroDivisionError('boom %d' % j)
             if a == 'N': return None
+            trace_object.mark = np.array([1000 + j], dtype='int32')        # a note the function leaves on the trace (dry run: 1000 + index)
             return _data(tr[j], j, case['data'], kw.get('scale', 1))
         i = calls['i']; calls['i'] += 1
         s = holder['s']
@@ -136,6 +137,7 @@ def execute(case, tmpdir, seed=0):
         if a == 'X': raise ZeroDivisionError('boom %d' % i)
         if a == 'N': return None
         calls['acc'] += 1
+        trace_object.mark = np.array([2000 + i], dtype='int32')            # the note left during the run (2000 + index): part of the trace's metadata when it is written
         return _data(tr[i], i, case['data'], kw.get('scale', 1))
 
     out_arg = fn if case['out'] == 'str' else Path(fn)
@@ -169,6 +171,10 @@ def execute(case, tmpdir, seed=0):
 
     def read_back(reader):
         smp = np.asarray(reader.samples[:])
+        try:
+            holder['mark'] = np.asarray(reader.mark[:]).reshape(-1)
+        except Exception as e:
+            holder['mark'] = e
         return smp, np.asarray(reader.plaintext[:]), np.asarray(reader.idx[:]).reshape(-1)
 
     def check_content(smp, p, ix, where):
@@ -180,6 +186,10 @@ def execute(case, tmpdir, seed=0):
             if not np.array_equal(np.asarray(p[j]).reshape(-1), pt[i]) or int(ix[j]) != i:
                 viol.append(('C20/output/metadata', '%s: %r: output row %d carries metadata idx=%s plaintext=%s, originating trace %d has plaintext=%s'
                              % (where, ans, j, int(ix[j]), np.asarray(p[j]).tolist(), i, pt[i].tolist()))); break
+        mk = holder.get('mark')
+        if len(acc) and (isinstance(mk, Exception) or len(mk) != len(acc) or [int(v) for v in mk] != [2000 + i for i in acc]):
+            viol.append(('C20/output/metadata-set-during-run', '%s: %r%s: the note the function left on each accepted trace during the run (2000 + index) is read back as %s'
+                         % (where, ans, ' after check()' if case.get('check_first') else '', mk if isinstance(mk, Exception) else [int(v) for v in mk])))
         if len(acc) and smp.dtype != exp_rows[0].dtype:
             viol.append(('C20/output/dtype', '%s: %r: output dtype %s, returned data dtype %s' % (where, ans, smp.dtype, exp_rows[0].dtype)))
 
